@@ -21,7 +21,7 @@ func init() {
 	Register(&Check{Prop: "C05", Run: runC05, Replay: func(c *Ctx, cs *Case) { evalC05(c, cs) }})
 }
 
-var c05Classes = []int{gen.ClassPlain, gen.ClassBullet, gen.ClassBlankEdge, gen.ClassUnicode, gen.ClassQuoting, gen.ClassExt, gen.ClassControl}
+var c05Classes = []int{gen.ClassPlain, gen.ClassBullet, gen.ClassBlankEdge, gen.ClassUnicode, gen.ClassQuoting, gen.ClassExt, gen.ClassControl, gen.ClassCase}
 
 func pathElem(n string) bool {
 	return n != "" && n != "." && n != ".." && !strings.Contains(n, "/")
